@@ -1,3 +1,103 @@
 import Srctools.Wire
-/-! stub driver (echo) — replaced when the property's model exists. -/
-def main : IO Unit := Wire.main fun j => pure j
+import Srctools.Model.C10
+import Srctools.Gen.Bsp
+/-! Driver for the C10 model (lazily parsed lump views + save) over the tables of `Gen.Bsp`.
+
+requests:
+  {"op":"tables"}
+      → the extracted tables and the value of every decidable well-formedness predicate
+  {"op":"run","rd":null|[[view…]…],"wd":null|[[view…]…],"ops":[int…]}
+      ops: v ≥ 0 = read attribute of view v; -1 = save.  `rd`/`wd` (per view, optional) replace the
+      static reader/writer view dependencies by the ones observed on a concrete file.
+      → {"steps":[obs…]} one observation per op:
+        {"parsed":[[view,quality]…],"clr":[lump…],"raw":[[lump,code]…],"pending":[[b,e]…],"lost":[[b,e]…],"stuck":bool}
+      provenance codes of raw lumps: 1 original bytes, 0 emptied by a parse, 2 rebuilt from a value
+      parsed from intact data, 3 rebuilt from a value parsed from emptied data (= data loss);
+      quality of a parsed value: 1 parsed from intact data, 0 parsed from emptied data.
+-/
+open Lean C10
+
+def provCodec (T : Tables) : Codec Nat Nat where
+  empty := 0
+  dflt := 0
+  rd := fun v raw env =>
+    if (T.view v).clears.all (fun l => raw l == 1 || raw l == 2) && (T.view v).rdeps.all (fun w => env w == 1)
+    then 1 else 0
+  wr := fun v x env raw l =>
+    if (T.view v).clears.contains l then
+      (if x == 1 && (T.view v).wdeps.all (fun w => env w == 1) then 2 else 3)
+    else raw l
+
+def natLists (j : Json) : Except String (List (List Nat)) := do
+  let a ← j.getArr?
+  a.toList.mapM Wire.natList
+
+def withDeps (T : Tables) (rd wd : Option (List (List Nat))) : Tables :=
+  { T with views := (List.range T.n).map fun v =>
+      let d := T.view v
+      { d with rdeps := match rd with | some r => r.getD v [] | none => d.rdeps
+               wdeps := match wd with | some w => w.getD v [] | none => d.wdeps } }
+
+def pairsJson (l : List (Nat × Nat)) : Json :=
+  Json.arr (l.map fun p => Wire.ofNatList [p.1, p.2]).toArray
+
+def lumpIds (T : Tables) : List Nat := T.lumpNames.map (·.1)
+
+def obs (T : Tables) (s : St Nat Nat) : Json :=
+  Json.mkObj [
+    ("parsed", pairsJson ((List.range T.n).filterMap fun v => (s.parsed v).map fun q => (v, q))),
+    ("clr", Wire.ofNatList ((lumpIds T).filter fun l => s.clr l)),
+    ("raw", pairsJson ((lumpIds T).map fun l => (l, s.raw l))),
+    ("pending", pairsJson s.pending),
+    ("lost", pairsJson s.lost),
+    ("stuck", Json.bool s.stuck)]
+
+def runOps (T : Tables) (ops : List Int) : List Json :=
+  let C := provCodec T
+  let rec go (s : St Nat Nat) : List Int → List Json
+    | [] => []
+    | o :: rest =>
+      let s' := if o < 0 then save T C s else access T C T.fuel o.toNat s
+      obs T s' :: go s' rest
+  go (init fun _ => 1) ops
+
+def viewJson (d : View) : Json :=
+  Json.mkObj [("name", Json.str d.name), ("main", Json.num (JsonNumber.fromNat d.main)),
+    ("clears", Wire.ofNatList d.clears), ("rdeps", Wire.ofNatList d.rdeps), ("wdeps", Wire.ofNatList d.wdeps),
+    ("rraw", Wire.ofNatList d.rraw), ("wraw", Wire.ofNatList d.wraw),
+    ("borrows", Wire.ofNatList d.borrows), ("restores", Wire.ofNatList d.restores)]
+
+def tablesJson (T : Tables) : Json :=
+  Json.mkObj [
+    ("views", Json.arr (T.views.map viewJson).toArray),
+    ("order", Wire.ofNatList T.order),
+    ("writeOrder", Wire.ofNatList T.writeOrder),
+    ("lumpNames", Json.arr (T.lumpNames.map fun p =>
+        Json.arr #[Json.num (JsonNumber.fromNat p.1), Json.str p.2]).toArray),
+    ("readerStores", pairsJson Gen.Bsp.readerStores),
+    ("gameLumpIds", Json.arr (Gen.Bsp.gameLumpIds.map Json.str).toArray),
+    ("pos", Wire.ofNatList ((List.range T.n).map T.pos)),
+    ("WF", Json.bool (WF T)), ("WritesAll", Json.bool (WritesAll T)), ("Topo", Json.bool (Topo T)),
+    ("RAcyclic", Json.bool (RAcyclic T)), ("Frame", Json.bool (Frame T)), ("BorrowOK", Json.bool (BorrowOK T)),
+    ("topoViolations", pairsJson (topoViolations T)),
+    ("reachAtSave", Json.arr ((List.range T.n).map fun v => Wire.ofNatList (reachAtSave T v)).toArray)]
+
+def optLists (j : Json) (k : String) : Except String (Option (List (List Nat))) :=
+  match j.getObjVal? k with
+  | .ok Json.null => pure none
+  | .ok v => do pure (some (← natLists v))
+  | .error _ => pure none
+
+def handle (j : Json) : Except String Json := do
+  let op ← j.getObjValAs? String "op"
+  match op with
+  | "tables" =>
+    let T := withDeps Gen.Bsp.tables (← optLists j "rd") (← optLists j "wd")
+    pure (tablesJson T)
+  | "run" =>
+    let T := withDeps Gen.Bsp.tables (← optLists j "rd") (← optLists j "wd")
+    let ops ← Wire.intList (← j.getObjVal? "ops")
+    pure (Json.mkObj [("steps", Json.arr (runOps T ops).toArray)])
+  | _ => throw s!"unknown op {op}"
+
+def main : IO Unit := Wire.main handle
